@@ -1419,8 +1419,8 @@ def check_C15(ctx):
     reqs, metas = [], []
     for i in range(ctx.scale(200, 2000)):
         t = gen.gen_tree(ctx.rng, ctx.rng.randint(3, 10), max_arity=ctx.rng.choice([2, 3, 4]), unary=ctx.rng.random() < 0.3)
-        kind = ctx.rng.choice(['dupleaf', 'dupinternal', 'unnamed_internal', 'clean'])
-        ui = True if kind in ('dupinternal', 'unnamed_internal') else ctx.rng.random() < 0.5
+        kind = ctx.rng.choice(['dupleaf', 'dupinternal', 'unnamed_internal', 'clean', 'leaf_like_internal'])
+        ui = True if kind in ('dupinternal', 'unnamed_internal', 'leaf_like_internal') else ctx.rng.random() < 0.5
         ints = [x for x in t.nodes() if x.kids]
         ls = t.leaves()
         if kind == 'dupleaf':
@@ -1431,6 +1431,9 @@ def check_C15(ctx):
         elif kind == 'unnamed_internal':
             for x in ints:
                 x.name = ''
+        elif kind == 'leaf_like_internal' and ints:
+            # a leaf carrying the name of an internal node: every lookup by name is ambiguous for it (finding F12)
+            ctx.rng.choice(ls).name = ctx.rng.choice(ints).name
         nw = gen.newick(t, internal=True)
         reqs.append(['taxonomy', ui, t.sx()])
         metas.append((t, kind, ui, nw))
@@ -1448,6 +1451,10 @@ def check_C15(ctx):
             if len(set(leafn)) != len(leafn) or len(set(intn)) != len(intn):
                 ctx.violation('taxonomy accepted although %s names repeat: a name lookup would pick one of several genomes'
                               % ('leaf' if len(set(leafn)) != len(leafn) else 'internal'), payload)
+                continue
+            if set(leafn) & set(intn):
+                ctx.violation('taxonomy accepted although a leaf and an internal node are both named %s: lookups by that name '
+                              'are ambiguous' % sorted(set(leafn) & set(intn))[0], payload, finding_key='F12-name-shared-by-leaf-and-internal-node')
                 continue
         elif r[1] != 'KeyError':
             ctx.violation('ambiguous tree rejected with %s instead of KeyError' % r[1], payload)
@@ -1799,7 +1806,7 @@ def obj_keys(d):
     return keys
 
 
-def signature(ham, with_profile=True, max_pairs=60, rng=None):
+def signature(ham, with_profile=True, max_pairs=60, rng=None, deep=False):
     """everything a comparison-style user can observe, in an id-free, order-free form"""
     d = impl.Dump(ham)
     keys = obj_keys(d)
@@ -1843,6 +1850,37 @@ def signature(ham, with_profile=True, max_pairs=60, rng=None):
             fams.append((K(h), sorted((impl.node_path(n) + root, n.nbr_genes, n.dupl, n.lost, n.retained, n.duplication)
                                       for n in tm.traverse())))
         sig['family_profiles'] = sorted(fams, key=repr)
+    if deep:
+        # per-family profiles of sub-HOGs as well (every level of a family, also single-child levels)
+        subs = sorted(((K(h), h) for o, h in d.obj.items() if h.parent is not None), key=lambda x: repr(x[0]))[:12]
+        sp = []
+        for k_, h in subs:
+            try:
+                tm = ham.create_tree_profile(hog=h).treemap
+                root = d.path[h.genome.taxon]
+                sp.append((k_, sorted((impl.node_path(n) + root, n.nbr_genes, n.dupl, n.lost, n.retained, n.duplication)
+                                      for n in tm.traverse())))
+            except Exception as e:  # noqa
+                sp.append((k_, 'error:' + type(e).__name__))
+        sig['subhog_profiles'] = sp
+        # the species subtree the taxonomy serialises for every internal node, and the one every iHam page embeds,
+        # as nested clades (display names of ancestral levels may differ between configurations)
+        def clades(nwk):
+            from ete3 import Tree
+            def go(n):
+                return tuple(sorted(n.get_leaf_names())) if n.is_leaf() else (tuple(sorted(n.get_leaf_names())), tuple(sorted(go(c) for c in n.children)))
+            try:
+                return go(Tree(nwk, format=8))
+            except Exception as e:  # noqa
+                return 'unreadable:' + type(e).__name__
+        sig['subtree_newick'] = sorted((p_, clades(ham.taxonomy.get_newick_from_tree(nd))) for nd, p_ in d.path.items() if not nd.is_leaf())
+        pages = []
+        for hid, h in ham.top_level_hogs.items():
+            try:
+                pages.append((K(h), clades(ham.create_iHam(h).newick_str)))
+            except Exception as e:  # noqa
+                pages.append((K(h), 'error:' + type(e).__name__))
+        sig['page_trees'] = sorted(pages, key=repr)
     return sig
 
 
@@ -2024,6 +2062,42 @@ def check_C12(ctx):
         prot = [[Q(g.unique_id), Q(str(g.prot_id))] for g in L.ham.extant_gene_map.values()]
         return [['wf']] + [['export', o, prot] for o in hs] + [['page', o, prot] for o in hs]
     reps = analyze(Ls, cmds)
+    # the page of the same HOG when the species tree was supplied as PhyloXML: same embedded subtree and records
+    if FORCED is None:
+        work12 = tempfile.mkdtemp(prefix='c12_', dir=os.path.join(core.VERIF, '.work') if os.path.isdir(os.path.join(core.VERIF, '.work')) else None)
+        try:
+            for L in Ls:
+                if L.impl[0] != 'ok' or not L.case.consistent or not L.case.use_internal or ctx.rng.random() > 0.2 \
+                        or not all(n.name for n in L.case.tree.nodes()):
+                    continue
+                pxf = os.path.join(work12, 't.phyloxml')
+                with open(pxf, 'w') as f_:
+                    f_.write(phyloxml_text(L.case.tree))
+                rp = impl.load_impl(L.case, newick=pxf, tree_format='phyloxml')
+                if rp[0] != 'ok':
+                    continue          # the configuration product is C13's subject
+                ctx.counts['phyloxml_pages_compared'] += 1
+                hp = rp[1]
+                for hid, h in L.ham.top_level_hogs.items():
+                    if hid not in hp.top_level_hogs:
+                        continue
+                    try:
+                        a_ = page_fields(L.ham.create_iHam(h).HTML)
+                        b_ = page_fields(hp.create_iHam(hp.top_level_hogs[hid]).HTML)
+                        same = a_ is not None and b_ is not None and newick_names(a_['tree']) == newick_names(b_['tree']) \
+                            and sorted(json.loads(a_['fam_data']), key=repr) == sorted(json.loads(b_['fam_data']), key=repr)
+                    except Exception as e:  # noqa
+                        same = False
+                        b_ = {'tree': 'error: %s' % type(e).__name__}
+                    if not same:
+                        ctx.violation('iHam page of family %s embeds another species subtree / other records when the species tree is '
+                                      'supplied as PhyloXML' % hid,
+                                      {'case': dict(case_json(L.case), tree_format='phyloxml'), 'hog': hid,
+                                       'newick_page_tree': a_['tree'] if a_ else None, 'phyloxml_page_tree': b_['tree'] if b_ else None})
+                        break
+        finally:
+            import shutil
+            shutil.rmtree(work12, ignore_errors=True)
     for L, rep in zip(Ls, reps):
         if rep is None:
             continue
@@ -2145,6 +2219,11 @@ def phyloxml_text(t, with_clade_name=True):
 def check_C13(ctx):
     import gzip
     cases = [c for c in gen_main(ctx, ctx.scale(60, 500), p_og_attr=0.3) if c.consistent]
+    # species trees with unary nodes (names must come from the tree: synthesised names repeat at a unary node)
+    unary_cases = [gen.gen_case(ctx.rng, max_leaves=8, unary=True, use_internal=True, p_og_attr=0.3, tag='unary')
+                   for _ in range(ctx.scale(20, 150))]
+    unary_ids = set(id(c) for c in unary_cases)
+    cases = cases + [c for c in unary_cases if c.consistent]
     work = tempfile.mkdtemp(prefix='c13_', dir=os.path.join(core.VERIF, '.work') if os.path.isdir(os.path.join(core.VERIF, '.work')) else None)
     try:
         for c in cases:
@@ -2153,7 +2232,7 @@ def check_C13(ctx):
             if r0[0] != 'ok':
                 ctx.violation('consistent input rejected: %s' % r0[1], {'case': case_json(c)})
                 continue
-            base = signature(r0[1], rng=ctx.rng.__class__(1))
+            base = signature(r0[1], rng=ctx.rng.__class__(1), deep=True)
             named_ok = all(n.name for n in c.tree.nodes())
             nwf = os.path.join(work, 't.nwk')
             with open(nwf, 'w') as f:
@@ -2178,7 +2257,7 @@ def check_C13(ctx):
             xmls = [('string', c.xml(), True), ('string-one-chunk', c.xml(one_line=True), True), ('file', xf, False),
                     ('file-one-line', xf1, False), ('gzip', xgz, False)]
             for tf, tv, tk in trees:
-                for ui in (True, False):
+                for ui in ((True,) if id(c) in unary_ids else (True, False)):
                     for xn, xv, as_str in xmls:
                         for prog in (False, True):
                             configs.append((tf, tv, tk, ui, xn, xv, as_str, prog))
@@ -2198,7 +2277,7 @@ def check_C13(ctx):
                     ctx.violation('configuration fails to load (%s): %s' % (type(e).__name__, desc),
                                   {'case': case_json(c), 'configuration': desc, 'error': repr(e)[:200]}, finding_key=key)
                     continue
-                sg = signature(h, rng=ctx.rng.__class__(1))
+                sg = signature(h, rng=ctx.rng.__class__(1), deep=True)
                 df = sig_diff(base, sg)
                 if df:
                     ctx.violation('configuration %s gives other %s than the baseline' % (desc, df),
@@ -2325,8 +2404,8 @@ def check_C14(ctx):
 class Session(object):
     """one loaded analysis with id-free naming of its objects"""
 
-    def __init__(self, case):
-        r = impl.load_impl(case)
+    def __init__(self, case, phyloxml=None):
+        r = impl.load_impl(case, newick=phyloxml, tree_format='phyloxml') if phyloxml else impl.load_impl(case)
         assert r[0] == 'ok', r
         self.ham = r[1]
         self.refresh()
@@ -2489,11 +2568,31 @@ def session_op_sx(X, op):
 def check_C17(ctx):
     cases = [c for c in gen_main(ctx, ctx.scale(60, 500)) if c.consistent]
     session_jobs = []
+    work17 = tempfile.mkdtemp(prefix='c17_', dir=os.path.join(core.VERIF, '.work') if os.path.isdir(os.path.join(core.VERIF, '.work')) else None)
+    try:
+        return check_C17_body(ctx, cases, session_jobs, work17)
+    finally:
+        import shutil
+        shutil.rmtree(work17, ignore_errors=True)
+
+
+def check_C17_body(ctx, cases, session_jobs, work17):
     for c in cases:
         ctx.record_case(c)
         if impl.load_impl(c)[0] != 'ok':
             continue
-        X, Y = Session(c), Session(c)
+        # a quarter of the histories run on analyses whose species tree was supplied as PhyloXML
+        px = None
+        if ctx.rng.random() < 0.25 and all(n.name for n in c.tree.nodes()):
+            px = os.path.join(work17, 't%d.phyloxml' % len(session_jobs))
+            with open(px, 'w') as f_:
+                f_.write(phyloxml_text(c.tree))
+            try:
+                Session(c, px)
+                ctx.dist['tree=phyloxml'] += 1
+            except AssertionError:
+                px = None
+        X, Y = Session(c, px), Session(c, px)
         declared = set(n for n, _ in c.species)
         undeclared = set(n.path for n in c.named_tree().leaves() if n.name not in declared)
         if undeclared:
@@ -2521,28 +2620,28 @@ def check_C17(ctx):
             if S is X:
                 x_ops.append(op)
             got = run_op(S, op)
-            fresh = run_op(Session(c), op)
+            fresh = run_op(Session(c, px), op)
             if got != fresh:
                 key = None
                 if op[0] == 'extant_listing' and got[0] == 'ok' and fresh[0] == 'ok' and set(fresh[1]) <= set(got[1]) \
                         and all(p in undeclared for p in set(got[1]) - set(fresh[1])):
                     key = 'F8-extant-genome-for-undeclared-species'
                 ctx.violation('%s returns another result after %d earlier calls than on a fresh analysis' % (op[0], i),
-                              {'case': case_json(c), 'ops': [list(map(str, o)) for o in ops[:i + 1]], 'op': list(map(str, op)),
+                              {'case': dict(case_json(c), tree_format='phyloxml' if px else 'newick'), 'ops': [list(map(str, o)) for o in ops[:i + 1]], 'op': list(map(str, op)),
                                'after_history': repr(got)[:800], 'fresh': repr(fresh)[:800]}, finding_key=key)
                 break
         session_jobs.append((c, X, tree_sx, forest_at_load, genomes_at_load, x_ops))
         after = X.core()
         if after != before:
             ctx.violation('analysis calls changed the loaded data (%s)' % sig_diff(before, after),
-                          {'case': case_json(c), 'ops': [list(map(str, o)) for o in ops], 'differs': sig_diff(before, after)})
+                          {'case': dict(case_json(c), tree_format='phyloxml' if px else 'newick'), 'ops': [list(map(str, o)) for o in ops], 'differs': sig_diff(before, after)})
         else:
             ctx.counts['core_unchanged'] += 1
         new = {p: k for p, k in X.empty_genomes().items() if p not in empty_before}
         for p, kind in new.items():
             if kind != 'AncestralGenome':
                 ctx.violation('an empty %s appeared at %s after analysis calls' % (kind, list(p)),
-                              {'case': case_json(c), 'ops': [list(map(str, o)) for o in ops], 'node': p},
+                              {'case': dict(case_json(c), tree_format='phyloxml' if px else 'newick'), 'ops': [list(map(str, o)) for o in ops], 'node': p},
                               finding_key='F8-extant-genome-for-undeclared-species' if p in undeclared else None)
     # session layer: the genomes that exist after the history, model vs implementation
     reqs = []
